@@ -1,38 +1,55 @@
 /-
-C17 — property theorems (only).  Model: `HydroVerif/Model/C17.lean`; helper lemmas (inner loops in
-closed form, one-step equations, guards): `HydroVerif/Lemmas/C17.lean`.
+C17 — property theorems (only).  Model: `HydroVerif/Model/C17.lean` (kernels, guards, wrappers), `Model/C17Spec.lean`
+(the specification-side quantities, executable), `Model/C17Hist.lean` (histories of calls), `Model/C17Round.lean`
+(rounding arithmetic `Fl rnd`, `rnd53`); helper lemmas: `HydroVerif/Lemmas/C17*.lean`.
 
 `α` is any commutative ring (ℚ, ℝ, ℤ, ...); `nf = fun _ => false` is `isnan` in exact arithmetic.
-The theorems named `kernel_*` hold for every order `p` (the length of the coefficient vector, no upper
-bound), every starting lag buffer and every series length; the others speak about `sim` / `residual`
-(the kernels behind their guards, orders 1..10) and about the Python wrappers `pySim` / `pyResidual(D)`.
-All of `sim`, `residual`, `pySim`, `pyResidual`, `pyResidualD`, `dataMean` are executed by the driver (Float:
-bit for bit against the real code; Rat, i.e. the `nf` instance the theorems are about: within a rounding
-budget on short series).  `simBuf` / `resBuf` are ghost state (the code never returns its buffer): they are
-tied to the executed `simRun` / `resRun` by `kernel_sim_resume` / `kernel_residual_resume`.
+The theorems named `kernel_*` hold for every order (the length of the coefficient vector, no upper bound), every
+starting lag buffer and every series length; the others speak about `sim` / `residual` (the kernels behind their
+guards, orders 1..10), about the Python wrappers `pySim` / `pyResidual(D)` and about histories of calls (`step`,
+`run`, `exec`).  Everything a theorem mentions is executed by the driver on the correspondence stream: the Float
+instance bit for bit against the real code (calls, histories, runs cut and resumed from `simBuf` / `resBuf`), the
+Rat instance within a rounding budget, the `Fl rnd53` instance (53-bit rounding over Rat) value for value against
+the real kernels, and the statements themselves (`specq`, `linq`, `boundr`: `past`, `glag`, `zeroNaN`, `scaleOpt`,
+`shiftOpt`, `addInnov`, the two rounding budgets) evaluated on the model's runs.
 
 Clause of the property                                   | theorems                                   | outside the theorems
 ---------------------------------------------------------|--------------------------------------------|---------------------
-every order 1..10, any finite φ, mean, initial value:    | sim_recursion, wrapper_sim_recursion       | IEEE rounding:
- armodel_sim reproduces y[t]-m = Σφ[k](y[t-k]-m)+e[t]    | (defaults / explicit sim_mean, sim_ini),   | float_recursion_statement
- started from the initial value                          | kernel_sim_recursion (every p),            | (not proved; executed bit for
-                                                         | kernel_buffer_holds_centred_past           | bit + oracle budget)
-armodel_residual is its inverse: residual(sim e) = e     | kernel_residual_sim, residual_sim,         | float_residual_sim_statement;
+every order 1..10, any finite φ, mean, initial value:    | sim_recursion, wrapper_sim_recursion       | overflow / subnormal range at
+ armodel_sim reproduces y[t]-m = Σφ[k](y[t-k]-m)+e[t]    | (defaults / explicit sim_mean, sim_ini),   | IEEE double (executed bit for
+ started from the initial value                          | kernel_sim_recursion (every p),            | bit, oracle budget with an
+                                                         | kernel_buffer_holds_centred_past;          | absolute floor); Lean's own
+                                                         | any finite magnitude, sign, shift:         | `Float` is opaque:
+                                                         | sim_homogeneous, wrapper_sim_homogeneous,  | float_recursion_statement
+                                                         | sim_shift_invariant, kernel_sim_additive;  | stays a def
+                                                         | IEEE rounding (standard model, u = 2^-53): |
+                                                         | kernel_recursion_rounded (+ _from_ini),    |
+                                                         | double_rounding_is_standard_model          |
+armodel_residual is its inverse: residual(sim e) = e     | kernel_residual_sim, residual_sim,         | overflow / subnormal range;
                                                          | wrapper_residual_sim (hyp. hm),            | sim_mean defaulted on BOTH calls:
-                                                         | kernel_same_buffer_every_step              | false on the code, known finding
-                                                         |                                            | (wrapper_defaults_not_inverse)
-sim(residual y) = y                                      | kernel_sim_residual, sim_residual,         | float_sim_residual_statement;
-                                                         | sim_residual_present (y with NaN),         | same known finding
-                                                         | wrapper_sim_residual (hyp. hm),            |
-                                                         | kernel_same_buffer_every_step'             |
-missing innovations act as zero innovations              | nan_innovation_is_zero,                    | — (any isnan: holds for the
-                                                         | wrapper_nan_innovation_is_zero             | Float instance as well)
-missing inputs give zero residuals                       | residual_zero_at_missing,                  | at Float the residual is 0 up to
-                                                         | wrapper_residual_zero_at_missing           | rounding for order ≥ 2 (oracle budget)
+                                                         | kernel_same_buffer_every_step,             | false on the code, known finding
+                                                         | residual_homogeneous,                      | (wrapper_defaults_not_inverse)
+                                                         | residual_shift_invariant;                  |
+                                                         | IEEE rounding: kernel_residual_sim_rounded,|
+                                                         | kernel_residual_sim_double                 |
+sim(residual y) = y                                      | kernel_sim_residual, sim_residual,         | IEEE rounding amplified by the AR
+                                                         | sim_residual_present (y with NaN),         | impulse response:
+                                                         | wrapper_sim_residual (hyp. hm),            | float_sim_residual_statement
+                                                         | kernel_same_buffer_every_step'             | (stated, oracle budget); same
+                                                         |                                            | known finding
+missing innovations act as zero innovations              | nan_innovation_is_zero,                    | — (any isnan, any arithmetic:
+                                                         | wrapper_nan_innovation_is_zero             | holds for Float / Fl as well)
+missing inputs give zero residuals                       | residual_zero_at_missing,                  | order ≥ 2 at IEEE double: zero up
+                                                         | wrapper_residual_zero_at_missing;          | to rounding only (ascending
+                                                         | order 1, any arithmetic, exactly zero:     | prediction, descending
+                                                         | residual_zero_at_missing_order1_any_arithmetic | subtraction; oracle budget)
 unsupported orders or NaN parameters are rejected        | accepts_iff, rejects_bad_order,            | exception class / message text
  with an error (orders 0, 11+; NaN φ, mean, ini;         | rejects_nan_param, rejects_nan_mean,       | (only "ValueError + which guard")
  every series length incl. empty)                        | rejects_nan_ini, wrapper_accepts_iff,      |
-                                                         | wrapper_rejects                            |
+                                                         | wrapper_rejects, wrapper_scalar_params;    |
+                                                         | the isnan tests on computed values:        |
+                                                         | kernel_sim_isnan_skip_dead,                |
+                                                         | kernel_residual_isnan_dead                 |
 default and explicit sim_mean / sim_ini                  | wrapper_defaults, wrapper_is_kernel,       | numpy.nanmean's summation order
                                                          | data_mean_undefined_iff,                   | (pairwise; the model sums in order,
                                                          | wrapper_residual_default_mean_without_data,| compared within n·u and used when
@@ -40,8 +57,15 @@ default and explicit sim_mean / sim_ini                  | wrapper_defaults, wra
 series of length 0 to several thousand, NaN anywhere     | every theorem is ∀ series (induction);     | numpy astype / atleast_1d /
  incl. the first `order` steps                           | output_length; kernel_sim_resume,          | contiguity (trusted); 0-d and 2-D
                                                          | kernel_residual_resume (cut anywhere)      | [n,p] series (recorded, not compared)
+the functions keep no state: every call answers for the  | history_call_reads_current_contents,       | Python object identity beyond the
+ objects as they are, whatever happened before (valid,   | history_call_writes_no_argument,           | one alias the model has (the
+ rejected, edited in place, fed back)                    | history_rejected_call_leaves_nothing,      | returned array handed back as the
+                                                         | history_rejected_call_invisible,           | series)
+                                                         | history_reply_at, history_inverse          |
 -/
 import HydroVerif.Lemmas.C17
+import HydroVerif.Lemmas.C17Extra
+import HydroVerif.Lemmas.C17Rnd53
 
 namespace HydroVerif.C17
 
@@ -341,6 +365,19 @@ theorem wrapper_rejects (nan : α → Bool) (params : List (Option α)) (series 
       show residual nan params (resolveMean μ meanArg) (resolveIni (resolveMean μ meanArg) iniArg) series = _
       rw [hi, hm']; exact (rejects_nan_ini nan params m series h1 h10 h).2
 
+/-- `params` given as a Python float is the order-1 coefficient vector (`np.atleast_1d`) -/
+theorem wrapper_scalar_params (nan : α → Bool) (φ : Option α) (series : List (Option α))
+    (meanArg iniArg : Option (Option α)) (μ : Option α) :
+    paramsOf (.scalar φ) = [φ] ∧
+    pySim nan (paramsOf (.scalar φ)) series meanArg iniArg = pySim nan [φ] series meanArg iniArg ∧
+    pyResidual nan (paramsOf (.scalar φ)) series μ meanArg iniArg = pyResidual nan [φ] series μ meanArg iniArg ∧
+    ((∃ ys, pySim nan (paramsOf (.scalar φ)) series meanArg iniArg = .ok ys) ↔
+      (φ ≠ none ∧ resolveMean (some 0) meanArg ≠ none ∧ resolveIni (resolveMean (some 0) meanArg) iniArg ≠ none)) := by
+  refine ⟨rfl, rfl, rfl, ?_⟩
+  show (∃ ys, pySim nan [φ] series meanArg iniArg = .ok ys) ↔ _
+  rw [(wrapper_accepts_iff nan [φ] series meanArg iniArg μ).1]
+  cases φ <;> simp
+
 /-- the recursion through `armodel_sim`, `sim_mean` / `sim_ini` each left at its default or passed:
 `m`, `ini` are the values the call stands for (`m = 0` by default, `ini = m` by default) -/
 theorem wrapper_sim_recursion (ps : List α) (m ini : α) (meanArg iniArg : Option (Option α))
@@ -443,12 +480,258 @@ theorem wrapper_residual_default_mean_with_data (ps : List F) (xs : List (Option
 
 end
 
-/-! ### IEEE double: stated, not proved
+/-! ### the recursion is linear: scale freedom, a common shift, additivity
+
+Every finite magnitude is inside the property's quantifier; these theorems are why one magnitude stands for
+all of them in exact arithmetic, and the harness runs the real code on a ladder of powers of two from the
+subnormal range to `1e270`. -/
+
+/-- multiplying innovations, mean and initial value by `c` multiplies the simulated series by `c`
+(missing stays missing; through the guards, every order, every length) -/
+theorem sim_homogeneous (params : List (Option α)) (mean ini : Option α) (innov : List (Option α)) (c : α) :
+    sim nf params (scaleOpt c mean) (scaleOpt c ini) (innov.map (scaleOpt c)) =
+      (sim nf params mean ini innov).map (List.map (c * ·)) :=
+  sim_homogeneous' params mean ini innov c
+
+theorem residual_homogeneous (params : List (Option α)) (mean ini : Option α) (xs : List (Option α)) (c : α) :
+    residual nf params (scaleOpt c mean) (scaleOpt c ini) (xs.map (scaleOpt c)) =
+      (residual nf params mean ini xs).map (List.map (c * ·)) :=
+  residual_homogeneous' params mean ini xs c
+
+/-- the same through `armodel_sim`, `sim_mean` / `sim_ini` scaled when passed, left at their defaults otherwise -/
+theorem wrapper_sim_homogeneous (params : List (Option α)) (innov : List (Option α))
+    (meanArg iniArg : Option (Option α)) (c : α) :
+    pySim nf params (innov.map (scaleOpt c)) (meanArg.map (scaleOpt c)) (iniArg.map (scaleOpt c)) =
+      (pySim nf params innov meanArg iniArg).map (List.map (c * ·)) := by
+  have h0 : scaleOpt c (some (0 : α)) = some 0 := by simp [scaleOpt]
+  cases meanArg with
+  | none =>
+    cases iniArg with
+    | none =>
+      have := sim_homogeneous' params (some 0) (some 0) innov c
+      rw [h0] at this
+      exact this
+    | some i =>
+      have := sim_homogeneous' params (some 0) i innov c
+      rw [h0] at this
+      exact this
+  | some m =>
+    cases iniArg with
+    | none => exact sim_homogeneous' params m m innov c
+    | some i => exact sim_homogeneous' params m i innov c
+
+/-- adding `d` to mean and initial value adds `d` to the simulated series; adding `d` to mean, initial value
+and inputs leaves the residuals unchanged: only `ini - mean` and `y - mean` matter -/
+theorem sim_shift_invariant (params : List (Option α)) (m i d : α) (innov : List (Option α)) :
+    sim nf params (some (m + d)) (some (i + d)) innov =
+      (sim nf params (some m) (some i) innov).map (List.map (· + d)) :=
+  sim_shift' params m i d innov
+
+theorem residual_shift_invariant (params : List (Option α)) (m i d : α) (xs : List (Option α)) :
+    residual nf params (some (m + d)) (some (i + d)) (xs.map (shiftOpt d)) =
+      residual nf params (some m) (some i) xs :=
+  residual_shift' params m i d xs
+
+/-- superposition: the run on the sum of two innovation series (means and lag buffers added) is the sum of
+the two runs, every order `p` -/
+theorem kernel_sim_additive (ps : Vector α p) (m m' : α) (es es' : List (Option α)) (buf buf' : Vector α p) :
+    simRun nf ps (m + m') (Vector.zipWith (· + ·) buf buf') (addInnov es es') =
+      List.zipWith (· + ·) (simRun nf ps m buf es) (simRun nf ps m' buf' es') :=
+  simRun_add ps m m' es es' buf buf'
+
+/-! ### the `isnan` tests on computed values never fire unless a computed value is NaN
+
+The exact theorems above take `isnan = false` on computed values.  For any `isnan` (the `Float` one included):
+as long as it is false on the lag buffer entries the simulation reads, resp. on `inputs[i] - sim_mean`, the run
+is the run without those tests. -/
+
+theorem kernel_sim_isnan_skip_dead (nan : α → Bool) (ps : Vector α p) (m : α) (es : List (Option α))
+    (buf : Vector α p) (h : ∀ n k (hk : k < p), nan (simBuf nf ps buf (es.take n))[k] = false) :
+    simRun nan ps m buf es = simRun nf ps m buf es :=
+  simRun_nan_dead nan ps m es buf h
+
+theorem kernel_residual_isnan_dead (nan : α → Bool) (ps : Vector α p) (m : α) (xs : List (Option α))
+    (buf : Vector α p) (h : ∀ x, some x ∈ xs → nan (x - m) = false) :
+    resRun nan ps m buf xs = resRun nf ps m buf xs :=
+  resRun_nan_dead nan ps m xs buf h
+
+/-! ### histories of calls on one set of argument objects (`Model/C17Hist.lean`)
+
+The functions keep no state: a call reads the argument objects as they are, writes none of them, and a
+rejected call leaves nothing behind.  `ops` is an arbitrary list of operations (in-place edits, other
+objects, feeding a result back, calls of either function — accepted or rejected). -/
+
+/-- the reply of a call is the wrapper applied to the contents of the objects at that moment -/
+theorem history_call_reads_current_contents (nan : α → Bool) (s : St α) (nm : Option α)
+    (ma ia : Option (Option α)) :
+    (step nan s (.callSim ma ia)).2 = some (pySim nan s.params s.series ma ia) ∧
+    (step nan s (.callRes nm ma ia)).2 = some (pyResidual nan s.params s.series nm ma ia) :=
+  ⟨rfl, rfl⟩
+
+/-- a call, accepted or rejected, writes neither the coefficient array nor the series -/
+theorem history_call_writes_no_argument (nan : α → Bool) (s : St α) (op : Op α) (h : op.isCall = true) :
+    (step nan s op).1.params = s.params ∧ (step nan s op).1.series = s.series :=
+  step_call_args nan s op h
+
+/-- fault path: a rejected call leaves every object as it was -/
+theorem history_rejected_call_leaves_nothing (nan : α → Bool) (s : St α) (op : Op α) (e : Err)
+    (h : (step nan s op).2 = some (.error e)) : (step nan s op).1 = s :=
+  step_rejected nan s op e h
+
+/-- the reply at position `n` of any history is the reply of that operation in the state the first `n`
+operations lead to -/
+theorem history_reply_at (nan : α → Bool) : ∀ (ops : List (Op α)) (s : St α) (n : Nat),
+    (run nan s ops)[n]? = ops[n]?.map fun op => (step nan (exec nan s (ops.take n)) op).2 := by
+  intro ops; induction ops with
+  | nil => intro s n; simp [run]
+  | cons op ops ih =>
+    intro s n
+    cases n with
+    | zero => simp [run, exec]
+    | succ n => simp [run, exec, ih]
+
+/-- a rejected call anywhere in a history is invisible: every other reply and the final state are those of
+the history without it -/
+theorem history_rejected_call_invisible (nan : α → Bool) (s : St α) (ops1 ops2 : List (Op α)) (op : Op α)
+    (e : Err) (h : (step nan (exec nan s ops1) op).2 = some (.error e)) :
+    run nan s (ops1 ++ op :: ops2) = run nan s ops1 ++ some (.error e) :: run nan (exec nan s ops1) ops2 ∧
+    run nan s (ops1 ++ ops2) = run nan s ops1 ++ run nan (exec nan s ops1) ops2 ∧
+    exec nan s (ops1 ++ op :: ops2) = exec nan s (ops1 ++ ops2) := by
+  have hs := step_rejected nan _ op e h
+  refine ⟨?_, run_append nan ops1 ops2 s, ?_⟩
+  · rw [run_append]; simp only [run, h, hs]
+  · rw [exec_append, exec_append]; simp only [exec, hs]
+
+/-- the inverse inside a history: simulate, hand the returned array over as the series, take the residuals
+with the same `sim_mean` (passed explicitly) and `sim_ini` — whatever rejected calls happen in between -/
+theorem history_inverse (params : List (Option α)) (innov : List (Option α)) (lst : Option (List (Option α)))
+    (m : Option α) (ia : Option (Option α)) (μ : Option α) (ys : List α) (faults : List (Op α))
+    (hf : ∀ f ∈ faults, ∀ s : St α, ∃ e, (step nf s f).2 = some (.error e))
+    (h : pySim nf params innov (some m) ia = .ok ys) :
+    (run nf { params := params, series := innov, last := lst }
+        ([.callSim (some m) ia] ++ faults ++ [.feedBack] ++ faults ++ [.callRes μ (some m) ia])).getLast? =
+      some (some (.ok (innov.map zeroNaN))) := by
+  have hfaults : ∀ (fs : List (Op α)), (∀ f ∈ fs, ∀ s : St α, ∃ e, (step nf s f).2 = some (.error e)) →
+      ∀ s : St α, exec nf s fs = s := by
+    intro fs; induction fs with
+    | nil => intro _ s; rfl
+    | cons f fs ih =>
+      intro hfs s
+      obtain ⟨e, he⟩ := hfs f List.mem_cons_self s
+      simp only [exec, step_rejected nf s f e he]
+      exact ih (fun g hg => hfs g (List.mem_cons_of_mem _ hg)) s
+  rw [List.getLast?_eq_getElem?, run_length]
+  have hlen : ([Op.callSim (some m) ia] ++ faults ++ [Op.feedBack] ++ faults ++ [Op.callRes μ (some m) ia]).length - 1 =
+      ([Op.callSim (some m) ia] ++ faults ++ [Op.feedBack] ++ faults).length := by simp; omega
+  rw [hlen, history_reply_at, List.getElem?_append_right (Nat.le_refl _)]
+  simp only [Nat.sub_self, List.getElem?_cons_zero, Option.map_some, List.take_left']
+  rw [exec_append, exec_append, exec_append, hfaults faults hf]
+  simp only [exec, step, h, afterCall]
+  rw [hfaults faults hf]
+  rw [wrapper_residual_sim params innov (some m) ia μ ys (Or.inl (by simp)) h]
+
+/-! ### arithmetic that rounds: what is exact in any arithmetic, and budgets in the standard model
+
+`Fl rnd` (`Model/C17Round.lean`) is the SAME model text with every `+ - *` followed by `rnd`.  The standard
+model `StdModel rnd u` is `|rnd x - x| ≤ u |x|` (no overflow / underflow).  `rnd53` (53-bit significand,
+ties to even, unbounded exponent) is proved to satisfy it with `u = 2^-53`, and the driver runs the kernels
+at `Fl rnd53` against the real C kernels value for value — so the two budgets below are theorems about the
+arithmetic the real code computes in, as long as nothing leaves the normal range. -/
+
+section rounding
+variable {F : Type} [Field F] [LinearOrder F] [IsStrictOrderedRing F] {rnd : F → F} {q : Nat}
+
+/-- `residual(sim e) = e` in rounding arithmetic, every order `q`, every starting lag buffer, every length, NaN
+innovations anywhere: with `S` bounding mean, innovations and the lag buffer of the simulation at every step,
+every residual is within `2 (1 + Σ|φ|) ((1+u)^(2q+2) - 1) S` of its innovation (first order: `4(q+1)u(1+Σ|φ|)S`;
+errors are NOT amplified along the series — the residual kernel is a finite filter of the output) -/
+theorem kernel_residual_sim_rounded {u : F} (h : StdModel rnd u) (ps : Vector (Fl rnd) q) (m : Fl rnd)
+    (buf : Vector (Fl rnd) q) (es : List (Option (Fl rnd))) (S : F)
+    (hm : |m.val| ≤ S) (he : ∀ e ∈ es, |z0 e| ≤ S)
+    (hb : ∀ n k (hk : k < q), |(simBuf nf ps buf (es.take n))[k].val| ≤ S)
+    (t : Nat) (r : Fl rnd) (e : Option (Fl rnd))
+    (hr : (resRun nf ps m buf ((simRun nf ps m buf es).map some))[t]? = some r) (het : es[t]? = some e) :
+    |r.val - z0 e| ≤ 2 * (1 + absSum ps) * ((1 + u) ^ (2 * q + 2) - 1) * S := by
+  have hS : 0 ≤ S := (abs_nonneg _).trans hm
+  have hG := G_ge_one h.1
+  have := coupled_run h ps m S hm es buf buf
+    (fun k hk => by simp only [sub_self, abs_zero]; nlinarith) he hb t r e hr het
+  have e2 : G u ^ (q + 1) = (1 + u) ^ (2 * q + 2) := by
+    unfold G; rw [← pow_mul]; congr 1
+  rw [← e2]; exact this
+
+/-- the AR recursion in rounding arithmetic: every output misses `y[t]-m = Σ_k φ_k (y[t-k]-m) + e[t]`
+(exact subtraction, exact sum, lags before the start = the starting buffer) by at most
+`(1 + Σ|φ|) ((1+u)^(2q) - 1 + 2u) S` -/
+theorem kernel_recursion_rounded {u : F} (h : StdModel rnd u) (ps : Vector (Fl rnd) q) (m : Fl rnd)
+    (buf : Vector (Fl rnd) q) (es : List (Option (Fl rnd))) (S : F)
+    (hm : |m.val| ≤ S) (he : ∀ e ∈ es, |z0 e| ≤ S)
+    (hb : ∀ n k (hk : k < q), |(simBuf nf ps buf (es.take n))[k].val| ≤ S) :
+    ∀ d ∈ recDefects ps m.val (buf.map Fl.val) (es.map z0) ((simRun nf ps m buf es).map Fl.val),
+      |d| ≤ (1 + absSum ps) * ((1 + u) ^ (2 * q) - 1 + 2 * u) * S := by
+  have hS : 0 ≤ S := (abs_nonneg _).trans hm
+  have := recursion_run h ps m S hm es buf (buf.map Fl.val)
+    (fun k hk => by
+      simp only [Vector.getElem_map, sub_self, abs_zero]
+      exact mul_nonneg (mul_nonneg (by norm_num) h.1) hS) he hb
+  have e2 : G u ^ q = (1 + u) ^ (2 * q) := by unfold G; rw [← pow_mul]
+  rw [← e2]; exact this
+
+/-- the same started from the initial value, as `c_armodel_sim` does (lag buffer `fl(ini - m)` at every lag):
+the lags before the start of the series are the EXACT `ini - m` -/
+theorem kernel_recursion_rounded_from_ini {u : F} (h : StdModel rnd u) (ps : Vector (Fl rnd) q) (m ini : Fl rnd)
+    (es : List (Option (Fl rnd))) (S : F)
+    (hm : |m.val| ≤ S) (hi : |ini.val| ≤ S) (he : ∀ e ∈ es, |z0 e| ≤ S)
+    (hb : ∀ n k (hk : k < q), |(simBuf nf ps (Vector.replicate q (ini - m)) (es.take n))[k].val| ≤ S) :
+    ∀ d ∈ recDefects ps m.val (Vector.replicate q (ini.val - m.val)) (es.map z0)
+        ((simRun nf ps m (Vector.replicate q (ini - m)) es).map Fl.val),
+      |d| ≤ (1 + absSum ps) * ((1 + u) ^ (2 * q) - 1 + 2 * u) * S := by
+  have := recursion_run h ps m S hm es (Vector.replicate q (ini - m)) (Vector.replicate q (ini.val - m.val))
+    (fun k hk => by
+      simp only [Vector.getElem_replicate, Fl.sub_val]
+      rw [abs_sub_comm]
+      refine (h.2 _).trans ?_
+      have : |ini.val - m.val| ≤ S + S := (abs_sub _ _).trans (by linarith)
+      have := mul_le_mul_of_nonneg_left this h.1
+      linarith) he hb
+  have e2 : G u ^ q = (1 + u) ^ (2 * q) := by unfold G; rw [← pow_mul]
+  rw [← e2]; exact this
+
+end rounding
+
+/-- IEEE double rounding without range limits is an instance of the standard model, `u = 2^-53` -/
+theorem double_rounding_is_standard_model : StdModel rnd53 ((2 : ℚ) ^ (-53 : ℤ)) := rnd53_std
+
+/-- hence, in the arithmetic of the real kernels (nothing leaving the normal range): -/
+theorem kernel_residual_sim_double {q : Nat} (ps : Vector (Fl rnd53) q) (m : Fl rnd53)
+    (buf : Vector (Fl rnd53) q) (es : List (Option (Fl rnd53))) (S : ℚ)
+    (hm : |m.val| ≤ S) (he : ∀ e ∈ es, |z0 e| ≤ S)
+    (hb : ∀ n k (hk : k < q), |(simBuf nf ps buf (es.take n))[k].val| ≤ S)
+    (t : Nat) (r : Fl rnd53) (e : Option (Fl rnd53))
+    (hr : (resRun nf ps m buf ((simRun nf ps m buf es).map some))[t]? = some r) (het : es[t]? = some e) :
+    |r.val - z0 e| ≤ 2 * (1 + absSum ps) * ((1 + (2 : ℚ) ^ (-53 : ℤ)) ^ (2 * q + 2) - 1) * S :=
+  kernel_residual_sim_rounded rnd53_std ps m buf es S hm he hb t r e hr het
+
+/-- order 1, ANY arithmetic in which `0 + x = x` and `x - x = 0` for finite `x` (IEEE double included, no
+other law needed) and any `isnan`: the residual at a missing input is EXACTLY zero (for order ≥ 2 the
+ascending prediction and the descending subtraction round differently: zero up to rounding only) -/
+theorem residual_zero_at_missing_order1_any_arithmetic {β : Type} [Add β] [Sub β] [Mul β] [OfNat β 0]
+    (nan : β → Bool) (fin : β → Prop) (h0 : ∀ x : β, 0 + x = x) (hs : ∀ x, fin x → x - x = 0)
+    (ps : Vector β 1) (m : β) (xs : List (Option β)) (buf : Vector β 1) (t : Nat)
+    (ht : xs[t]? = some none) (hfin : fin (ps[0] * (resBuf nan ps m buf (xs.take t))[0])) :
+    (resRun nan ps m buf xs)[t]? = some 0 :=
+  resRun_order1_missing_exact nan fin h0 hs ps m xs buf t ht hfin
+
+/-! ### Lean's own `Float`: stated, not proved
 
 The `Float` instance of the very same model text is executed by the driver and compared bit for bit with the
 kernels; the statements below say what the property means at `Float` (rounding budgets, first order in
 `u = 2⁻⁵³`, the ones the harness oracle applies to the real code).  They are not theorems: Lean's `Float`
-is opaque to the kernel.  The exact-ring theorems above are the proved part. -/
+is opaque to the kernel.  What IS proved about rounding: `kernel_recursion_rounded`, `kernel_residual_sim_rounded`
+(any arithmetic meeting the standard model) and `double_rounding_is_standard_model` (`rnd53`, the rounding the
+driver runs value for value against the real kernels) — i.e. the first two statements below for IEEE double
+arithmetic without overflow / underflow, with the explicit constants of those theorems.  The third (`sim(residual y)`,
+errors amplified by the impulse response) is stated only. -/
 
 /-- largest absolute value of a list (0 for the empty list) -/
 def maxAbs (xs : List Float) : Float := xs.foldl (fun a x => if a < x.abs then x.abs else a) 0
@@ -518,6 +801,74 @@ example : resolveMean (some (0 : ℤ)) (some (some 5)) = some 5 ∧ resolveIni (
 example : ∀ x ∈ ([] : List (Option ℚ)), x = none := by simp
 example : ∀ x ∈ ([none, none] : List (Option ℚ)), x = none := by simp
 example : ∃ v, some v ∈ [none, some (3 : ℚ), none] := ⟨3, by simp⟩
+/-- scale freedom and shift, a concrete instance (c = 3, d = 7) -/
+example : sim nf [some (2 : ℤ), some (-1)] (scaleOpt 3 (some 5)) (scaleOpt 3 (some 10))
+    ([some 1, none, some 2, some (-1)].map (scaleOpt 3)) = .ok [33, 36, 45, 51] := by rfl
+example : sim nf [some (2 : ℤ), some (-1)] (some (5 + 7)) (some (10 + 7)) [some 1, none, some 2, some (-1)]
+    = .ok [18, 19, 22, 24] := by rfl
+example : addInnov [some (1 : ℤ), none] [none, some 2] = [some 1, some 2] := by rfl
+/-- a history with a fault in the middle: valid call, NaN written into the coefficients (rejected call),
+coefficient restored, the result of the first call fed back, residuals = innovations -/
+example : run nf { params := [some (2 : ℤ), some (-1)], series := [some 1, none, some 2, some (-1)], last := none }
+    [.callSim (some (some 5)) (some (some 10)), .setParam 0 none, .callSim (some (some 5)) (some (some 10)),
+     .setParam 0 (some 2), .feedBack, .callRes none (some (some 5)) (some (some 10)), .newParams [],
+     .callRes none (some (some 5)) (some (some 10))]
+    = [some (.ok [11, 12, 15, 17]), none, some (.error .nanParam), none, none, some (.ok [1, 0, 2, -1]), none,
+       some (.error .badOrder)] := by rfl
+/-- hypothesis `hf` of `history_inverse`: operations that are rejected in every state exist (order 0 call after
+nothing — here: a call whose mean argument is NaN) -/
+example : ∀ s : St ℤ, ∃ e, (step nf s (.callSim (some none) none)).2 = some (.error e) := by
+  intro s
+  show ∃ e, some (sim nf s.params none none s.series) = some (.error e)
+  cases h : sim nf s.params none none s.series with
+  | error e => exact ⟨e, rfl⟩
+  | ok ys => exact absurd rfl ((accepts_iff nf s.params none none s.series).1.mp ⟨ys, h⟩).2.2.2.1
+/-- the dead `isnan` test: hypothesis met by an `isnan` that fires on a value never computed -/
+example : ∀ x, some x ∈ [some (11 : ℤ), some 12] → (fun v : ℤ => v == 1000) (x - 5) = false := by
+  intro x hx; simp at hx; rcases hx with rfl | rfl <;> rfl
+/-- a rounding that is not the identity and meets the standard model: every result 0.1 % too large -/
+example : StdModel (fun x : ℚ => x * (1 + 1 / 1000)) (1 / 1000) := by
+  refine ⟨by norm_num, fun x => ?_⟩
+  rw [show x * (1 + 1 / 1000) - x = 1 / 1000 * x by ring, abs_mul]
+  norm_num
+/-- all hypotheses of `kernel_residual_sim_rounded` / `kernel_recursion_rounded` at once, on a run in which every
+operation does round (order 1, φ = 1/2, one innovation, `S = 2`) -/
+example : ∀ r, (resRun nf (#v[(⟨1 / 2⟩ : Fl (fun x : ℚ => x * (1 + 1 / 1000)))]) ⟨0⟩ (#v[⟨0⟩])
+      ((simRun nf (#v[(⟨1 / 2⟩ : Fl (fun x : ℚ => x * (1 + 1 / 1000)))]) ⟨0⟩ (#v[⟨0⟩]) [some ⟨1⟩]).map some))[0]? = some r →
+    |r.val - 1| ≤ 2 * (1 + absSum (#v[(⟨1 / 2⟩ : Fl (fun x : ℚ => x * (1 + 1 / 1000)))])) *
+      ((1 + 1 / 1000) ^ (2 * 1 + 2) - 1) * 2 := by
+  intro r hr
+  have hstd : StdModel (fun x : ℚ => x * (1 + 1 / 1000)) (1 / 1000) := by
+    refine ⟨by norm_num, fun x => ?_⟩
+    rw [show x * (1 + 1 / 1000) - x = 1 / 1000 * x by ring, abs_mul]
+    norm_num
+  refine kernel_residual_sim_rounded hstd _ _ _ [some ⟨1⟩] 2 (by simp) (by simp [z0]) ?_ 0 r (some ⟨1⟩) hr rfl
+  intro n k hk
+  obtain rfl : k = 0 := by omega
+  rcases n with _ | n
+  · simp [simBuf]
+  · simp [simBuf, simLoop, nf]
+    norm_num [abs_le]
+/-- the hypotheses of `kernel_recursion_rounded_from_ini` on the same kind of run (mean 1, initial value 2) -/
+example : ∀ d ∈ recDefects (#v[(⟨1 / 2⟩ : Fl (fun x : ℚ => x * (1 + 1 / 1000)))]) 1 (Vector.replicate 1 ((2 : ℚ) - 1)) [1]
+      ((simRun nf (#v[(⟨1 / 2⟩ : Fl (fun x : ℚ => x * (1 + 1 / 1000)))]) ⟨1⟩ (Vector.replicate 1 ((⟨2⟩ : Fl _) - ⟨1⟩))
+        [some ⟨1⟩]).map Fl.val),
+    |d| ≤ (1 + absSum (#v[(⟨1 / 2⟩ : Fl (fun x : ℚ => x * (1 + 1 / 1000)))])) * ((1 + 1 / 1000) ^ (2 * 1) - 1 + 2 * (1 / 1000)) * 2 := by
+  have hstd : StdModel (fun x : ℚ => x * (1 + 1 / 1000)) (1 / 1000) := by
+    refine ⟨by norm_num, fun x => ?_⟩
+    rw [show x * (1 + 1 / 1000) - x = 1 / 1000 * x by ring, abs_mul]
+    norm_num
+  refine kernel_recursion_rounded_from_ini hstd _ ⟨1⟩ ⟨2⟩ [some ⟨1⟩] 2 (by simp) (by simp) (by simp [z0]) ?_
+  intro n k hk
+  obtain rfl : k = 0 := by omega
+  rcases n with _ | n
+  · simp [simBuf]; norm_num [abs_le]
+  · simp [simBuf, simLoop, nf]
+    norm_num [abs_le]
+/-- order 1 in plain integer arithmetic: the hypotheses of `residual_zero_at_missing_order1_any_arithmetic` -/
+example : (resRun (fun _ : ℤ => false) (#v[3]) 5 (#v[2]) [some 9, none, some 4])[1]? = some 0 :=
+  residual_zero_at_missing_order1_any_arithmetic (fun _ => false) (fun _ => True) (by intro x; simp)
+    (by intro x _; simp) _ _ _ _ 1 rfl trivial
 /-- resuming: a non-trivial cut -/
 example : simRun nf (toVec [(2 : ℤ), -1]) 5 (Vector.replicate 2 5) ([some 1, none] ++ [some 2, some (-1)])
     = [11, 12] ++ simRun nf (toVec [(2 : ℤ), -1]) 5 (simBuf nf (toVec [(2 : ℤ), -1]) (Vector.replicate 2 5) [some 1, none])
